@@ -122,7 +122,9 @@ def make_ext_modules(I):
         return F('operator.' + op, lambda I, a, b: I.binop(op, a, b))
     M('operator', and_=opf('&'), or_=opf('|'), xor=opf('^'), add=opf('+'), sub=opf('-'), mul=opf('*'),
       truediv=opf('/'), not_=F('operator.not_', lambda I, a: B.logical_not(I, a)),
-      eq=F('operator.eq', lambda I, a, b: I.compare('==', a, b)),
+      eq=F('operator.eq', lambda I, a, b: I.compare('==', a, b)), ne=F('operator.ne', lambda I, a, b: I.compare('!=', a, b)),
+      gt=F('operator.gt', lambda I, a, b: I.compare('>', a, b)), lt=F('operator.lt', lambda I, a, b: I.compare('<', a, b)),
+      ge=F('operator.ge', lambda I, a, b: I.compare('>=', a, b)), le=F('operator.le', lambda I, a, b: I.compare('<=', a, b)),
       itemgetter=F('operator.itemgetter', lambda I, k: F('itemgetter', lambda I, o: I.getitem(o, k))),
       attrgetter=F('operator.attrgetter', lambda I, k: F('attrgetter', lambda I, o: I.getattr(o, k))))
 
